@@ -129,8 +129,10 @@ def validate_api(c, api_file, name):
     with open(api_file) as f:
         for l in f:
             nlines += 1
-            if '"ev":"reset"' in l:
-                maxj = max(maxj, json.loads(l)["nj"])
+            if '"reset"' in l:
+                e = json.loads(l)
+                if e["ev"] == "reset":
+                    maxj = max(maxj, e["nj"])
     if nlines == 0:
         raise Inconclusive("empty API trace " + name)
     cfg = ('CONSTANTS J = %d  TraceFile = "%s"  MaxViol = 40\nSPECIFICATION TSpec\n'
